@@ -25,10 +25,31 @@
      text DETERMINES rows, columns and all elements (C18_matrix_display_injective,
      C18_tensor_display_injective for D <= 2) for every element renderer that is injective and
      avoids blank / comma / newline -- which the two exact renderers of the correspondence do
-     (C18_renderers_admissible). *)
+     (C18_renderers_admissible).
+
+   Wave 2 additions:
+   * the GENERAL-D arm of tensors/display.rs (D >= 4; Model/Format.v fmt_general, driven by the
+     row-major enumeration of all indexes as in the code) is modelled and compared byte for byte
+     for D = 4, 5, 6; C18_general_arm_is_recursive_layout proves it equal, for EVERY shape of >= 2
+     dimensions, to the layout defined by recursion on the dimensionality (blocks of k dimensions
+     joined by k-1 newlines), C18_blocks_arm_is_recursive_layout that the D = 3 arm is the same
+     layout, and C18_tensor_display_injective_any_D extends the injectivity theorem to every D.
+   * Model/FormatDebug.v: std's Debug builders ({:?} and the pretty {:#?} with its PadAdapter) as
+     functions on a tree, the trees `#[derive(Debug)]` gives the plain data types (Tensor, Matrix,
+     both IndexRange, DataLayout, shape / name arrays, the tape) and every error struct / enum, and
+     the Display of every error type from exact payloads -- (18 3 6 ..) / (18 3 7 ..) cases, each
+     error value built through its constructor AND obtained from the failing call where the API
+     can produce it; QR / LDLT-tensor / QR-tensor / MatrixQuadrants Display ((18 3 8 ..)).
+   * C18_error_text_contains_*: the Display text CONTAINS the Debug text of the offending shape /
+     names / ranges / length exactly as the payload has them; C18_shape_text_injective,
+     C18_names_text_injective, C18_invalid_shape_message_identifies_shape: that text determines
+     the payload (all names, all lengths in N).  C18_access_error_text_as_written records the
+     text of tensors::indexing::InvalidDimensionsError as the code produces it (the source's shape
+     follows the label "Requested dimension order", the requested names follow "the shape in the
+     source": candidate finding, notes/C18_C20.md). *)
 From Coq Require Import List Arith Bool ZArith NArith.
-From EasyML Require Import Base.Sx Model.Num Model.Tape Model.Determinism Model.Format
-  Proofs.C18P Proofs.C18FrameP Proofs.C18FormatP Run.RunC18.
+From EasyML Require Import Base.Sx Model.Num Model.Tape Model.Determinism Model.Format Model.FormatDebug
+  Proofs.C18P Proofs.C18FrameP Proofs.C18FormatP Proofs.C18FormatGP Proofs.C18ErrTextP Run.RunC18.
 Import ListNotations.
 
 (* any two injective address assignments -- of any two pointer types -- give the same final state
@@ -129,6 +150,109 @@ Theorem C18_renderers_admissible : forall el prec,
   (forall v, word (render el prec v)) /\ (forall a b, render el prec a = render el prec b -> a = b).
 Proof. intros el prec. split; [apply render_word | apply render_inj]. Qed.
 
+(* ---------------------------------------------------------------- wave 2: every dimensionality *)
+(* the D >= 4 arm as written (one pass over all indexes in row-major order, newlines counted from
+   the dimensions that are at their end) IS the layout by recursion on the dimensionality: "[\n",
+   then `body`, then "\n]", where a row is the indent and its cells joined by ", " and a block of
+   k >= 2 dimensions is its sub-blocks joined by k-1 newlines -- for every shape with >= 2
+   dimensions and no zero length *)
+Theorem C18_general_arm_is_recursive_layout : forall E (re : option N -> E -> text) prec lens get,
+  2 <= length lens -> Forall (fun l => 0 < l) lens ->
+  fmt_general re prec lens get = [91; 10]%N ++ body re prec lens get ++ [10; 93]%N.
+Proof. exact @fmt_general_is_recursive. Qed.
+
+(* the recursion, spelled out *)
+Theorem C18_recursive_layout_unfolds : forall E (re : option N -> E -> text) prec,
+  (forall c get, body re prec [c] get = t_indent ++ fmt_cells re prec c (fun j => get [j])) /\
+  (forall l a rest get, body re prec (l :: a :: rest) get
+     = join (nls (S (length rest))) (map (fun i => body re prec (a :: rest) (fun s => get (i :: s))) (seq 0 l))).
+Proof. intros E re prec. split; reflexivity. Qed.
+
+(* the hand-written D = 3 arm is the same layout at k = 3 *)
+Theorem C18_blocks_arm_is_recursive_layout : forall E (re : option N -> E -> text) prec b r c get,
+  0 < b -> 0 < r ->
+  fmt_blocks re prec b r c get
+  = fmt_rec re prec [b; r; c] (fun idx => match idx with [i; j; k] => get i j k | _ => get 0 0 0 end).
+Proof. exact @fmt_blocks_is_recursive. Qed.
+
+(* for a given shape of ANY dimensionality the text determines every element *)
+Theorem C18_tensor_display_injective_any_D : forall E (re : option N -> E -> text) prec,
+  (forall e, word (re prec e)) -> (forall a b, re prec a = re prec b -> a = b) ->
+  forall (sh : list (nat * nat)) (g1 g2 : list nat -> E) t,
+  Forall (fun p => 0 < snd p) sh ->
+  fmt_tensor re prec sh g1 = Some t -> fmt_tensor re prec sh g2 = Some t ->
+  forall idx, Forall2 (fun i p => i < snd p) idx sh -> g1 idx = g2 idx.
+Proof. exact @tensor_display_injective_any. Qed.
+
+(* ---------------------------------------------------------------- wave 2: error values *)
+(* the Display text of every error type contains the Debug text of the offending shape / dimension
+   names / index ranges / data length exactly as the payload has them *)
+Theorem C18_error_text_contains_shape : forall sh, contains (fmt_err_shape sh) (dbg_c (d_shape sh)).
+Proof. exact err_shape_contains. Qed.
+
+Theorem C18_error_text_contains_names : forall provided valid,
+  contains (fmt_err_dims provided valid) (dbg_c (d_names provided)) /\ (provided <> [] -> contains (fmt_err_dims provided valid) (dbg_c (d_names valid))).
+Proof. exact err_dims_contains. Qed.
+
+Theorem C18_error_text_contains_access : forall actual requested,
+  contains (fmt_err_access actual requested) (dbg_c (d_shape actual)) /\ contains (fmt_err_access actual requested) (dbg_c (d_names requested)).
+Proof. exact err_access_contains. Qed.
+
+Theorem C18_error_text_contains_range_validation : forall e,
+  match e with
+  | IrvShape sh => contains (fmt_err_irv e) (dbg_c (d_shape sh))
+  | IrvDims p v => contains (fmt_err_irv e) (dbg_c (d_names p)) /\ contains (fmt_err_irv e) (dbg_c (d_names v))
+  end.
+Proof. exact err_irv_contains. Qed.
+
+Theorem C18_error_text_contains_strict_range_validation : forall e,
+  match e with
+  | StrictOutside sh rs => contains (fmt_err_strict e) (dbg_c (d_shape sh)) /\ contains (fmt_err_strict e) (dbg_c (d_ranges rs))
+  | StrictError (IrvShape sh) => contains (fmt_err_strict e) (dbg_c (d_shape sh))
+  | StrictError (IrvDims p v) => contains (fmt_err_strict e) (dbg_c (d_names p)) /\ contains (fmt_err_strict e) (dbg_c (d_names v))
+  end.
+Proof. exact err_strict_contains. Qed.
+
+Theorem C18_error_text_contains_record_iterator_shape : forall sh len,
+  contains (fmt_err_rie (RieShape sh len)) (dbg_c (d_shape sh)) /\ contains (fmt_err_rie (RieShape sh len)) (dec_N len).
+Proof. exact err_rie_shape_contains. Qed.
+
+Theorem C18_error_text_contains_gaussian_shapes : forall e,
+  contains (fmt_err_mvg e) (dbg_c (d_shape (mg_cov_shape e))) /\ (mg_wrong_length e = true -> contains (fmt_err_mvg e) (dbg_c (d_shape (mg_mean_shape e)))).
+Proof. exact err_mvg_contains. Qed.
+
+(* ... and that text is faithful: the Debug text of a shape array / a name array determines the
+   array (every name, every length in N), so equal InvalidShapeError messages come from equal shapes *)
+Theorem C18_shape_text_injective : forall sh1 sh2, dbg_c (d_shape sh1) = dbg_c (d_shape sh2) -> sh1 = sh2.
+Proof. exact shape_text_inj. Qed.
+
+Theorem C18_names_text_injective : forall ns1 ns2, dbg_c (d_names ns1) = dbg_c (d_names ns2) -> ns1 = ns2.
+Proof. exact names_text_inj. Qed.
+
+Theorem C18_invalid_shape_message_identifies_shape : forall sh1 sh2,
+  fmt_err_shape sh1 = fmt_err_shape sh2 -> sh1 = sh2.
+Proof. exact err_shape_text_inj. Qed.
+
+(* tensors/indexing.rs:196-203 as written: the SOURCE's shape is printed after the label
+   "Requested dimension order: " and the REQUESTED names after " does not match the shape in the
+   source: " (the error VALUE carries both correctly; C18_error_text_contains_access) *)
+Theorem C18_access_error_text_as_written : forall actual requested,
+  fmt_err_access actual requested
+  = t_requested_order ++ dbg_c (d_shape actual) ++ t_not_match_source ++ dbg_c (d_names requested).
+Proof. exact err_access_text_as_written. Qed.
+
+(* non-vacuity of the wave-2 theorems: a 2x1x2x3 tensor through the general arm (3 blank-line
+   levels), the documented texts of two error values and a pretty Debug text *)
+Example C18_wave2_nonvacuous :
+  fmt_general (render ElInt) None [2; 1; 2; 2] (flatn 0%Z [2; 1; 2; 2] [1; 2; 3; 4; 5; 6; 7; 8]%Z)
+  = [91;10; 32;32;49;44;32;50;10; 32;32;51;44;32;52;10; 10;10; 32;32;53;44;32;54;10; 32;32;55;44;32;56; 10;93]%N
+  /\ fmt_err_shape [(0, 2%N); (0, 3%N)]
+     = t_invalid_shape ++ [91; 40;34;100;48;34;44;32;50;41; 44;32; 40;34;100;48;34;44;32;51;41; 93]%N
+  /\ fmt_err_access [(0, 2%N); (1, 3%N)] [1; 7]
+     = t_requested_order ++ [91; 40;34;100;48;34;44;32;50;41; 44;32; 40;34;100;49;34;44;32;51;41; 93]%N
+       ++ t_not_match_source ++ [91; 34;100;49;34; 44;32; 34;100;55;34; 93]%N.
+Proof. split; [vm_compute; reflexivity | split; [exact err_shape_example | exact err_access_example]]. Qed.
+
 (* non-vacuity: injective assignments exist (identity; an allocator handing out k + 8 t), and
    injectivity is needed -- were two live tapes to compare equal, a cross-tape addition would be
    recorded instead of panicking *)
@@ -180,3 +304,18 @@ Print Assumptions C18_matrix_display_lines.
 Print Assumptions C18_matrix_display_injective.
 Print Assumptions C18_tensor_display_injective.
 Print Assumptions C18_renderers_admissible.
+Print Assumptions C18_general_arm_is_recursive_layout.
+Print Assumptions C18_recursive_layout_unfolds.
+Print Assumptions C18_blocks_arm_is_recursive_layout.
+Print Assumptions C18_tensor_display_injective_any_D.
+Print Assumptions C18_error_text_contains_shape.
+Print Assumptions C18_error_text_contains_names.
+Print Assumptions C18_error_text_contains_access.
+Print Assumptions C18_error_text_contains_range_validation.
+Print Assumptions C18_error_text_contains_strict_range_validation.
+Print Assumptions C18_error_text_contains_record_iterator_shape.
+Print Assumptions C18_error_text_contains_gaussian_shapes.
+Print Assumptions C18_shape_text_injective.
+Print Assumptions C18_names_text_injective.
+Print Assumptions C18_invalid_shape_message_identifies_shape.
+Print Assumptions C18_access_error_text_as_written.
